@@ -69,7 +69,7 @@ func genC12(t *rapid.T) C12Scenario {
 		s.Writers = append(s.Writers, w)
 	}
 	s.Tape = rapid.SliceOfN(rapid.IntRange(0, 7), 0, 150).Draw(t, "tape")
-	s.DSYield = rapid.Bool().Draw(t, "dsyield")
+	s.DSYield = rapid.IntRange(0, 2).Draw(t, "dsyield") > 0
 	return s
 }
 
